@@ -211,14 +211,16 @@ def _collision_clause(cases, verdicts, feats):
     for i, (c, f) in enumerate(zip(cases, feats)):
         t = c.split("\t")
         if len(t) > 6 and t[1] == "cmp" and "one-leaf-differs" in f:
-            one.setdefault(t[5], [[], []])
-            one[t[5]][0].append(i)
+            which = [x for x in f if x.startswith("leaf") and x.endswith("-differs")]
+            key = (t[5], which[0] if which else "")         # per shape and per component
+            one.setdefault(key, [[], []])
+            one[key][0].append(i)
             if "collision" in f:
-                one[t[5]][1].append(i)
+                one[key][1].append(i)
     for name, (diff, col) in one.items():
         if len(diff) >= 8 and 4 * len(col) > len(diff):
             for i in col:
-                bad[i] = "bad:changing-one-component-does-not-change-the-hash(%d-of-%d-such-pairs-of-this-shape-collide)" % (len(col), len(diff))
+                bad[i] = "bad:changing-one-component-does-not-change-the-hash(%d-of-%d-such-pairs-of-this-shape-and-component-collide)" % (len(col), len(diff))
     for name, (diff, col) in per.items():
         if len(diff) >= 8 and 4 * len(col) > len(diff):
             for i in col:
